@@ -60,12 +60,15 @@ AuxHashMap<A>* AuxHashMap<A>::deserialize(const void* bytes, size_t len,
   const uint32_t configKmask = (1 << lgConfigK) - 1;
 
   AuxHashMap<A>* auxHashMap;
+  typedef std::unique_ptr<AuxHashMap<A>, std::function<void(AuxHashMap<A>*)>> aux_hash_map_ptr;
+  aux_hash_map_ptr aux_ptr(nullptr, make_deleter());
   const uint32_t* auxPtr = static_cast<const uint32_t*>(bytes);
   if (srcCompact) {
     if (len < auxCount * sizeof(int)) {
       throw std::out_of_range("Input array too small to hold AuxHashMap image");
     }
     auxHashMap = new (ahmAlloc(allocator).allocate(1)) AuxHashMap<A>(lgArrInts, lgConfigK, allocator);
+    aux_ptr.reset(auxHashMap);
     for (uint32_t i = 0; i < auxCount; ++i) {
       const uint32_t pair = auxPtr[i];
       const uint32_t slotNo = HllUtil<A>::getLow26(pair) & configKmask;
@@ -78,6 +81,7 @@ AuxHashMap<A>* AuxHashMap<A>::deserialize(const void* bytes, size_t len,
       throw std::out_of_range("Input array too small to hold AuxHashMap image");
     }
     auxHashMap = new (ahmAlloc(allocator).allocate(1)) AuxHashMap<A>(lgArrInts, lgConfigK, allocator);
+    aux_ptr.reset(auxHashMap);
     for (uint32_t i = 0; i < itemsToRead; ++i) {
       const uint32_t pair = auxPtr[i];
       if (pair == hll_constants::EMPTY) { continue; }
@@ -88,11 +92,10 @@ AuxHashMap<A>* AuxHashMap<A>::deserialize(const void* bytes, size_t len,
   }
 
   if (auxHashMap->getAuxCount() != auxCount) {
-    make_deleter()(auxHashMap);
     throw std::invalid_argument("Deserialized AuxHashMap has wrong number of entries");
   }
 
-  return auxHashMap;                                    
+  return aux_ptr.release();
 }
 
 template<typename A>
